@@ -354,3 +354,18 @@ def groups(tier):
         gs.append(Group("%s[COORD, collinear]" % name, collinear_harness(name, ka, kb), [MOD + ":" + name], stubs=cs, world="COORD", timeout_s=600,
                         expect_hits=["Point.__eq__"]))
     return gs
+
+
+# ---------------------------------------------------------------------------
+# bounded stand-in (cross-check of the proved contracts on CPython floats)
+# ---------------------------------------------------------------------------
+
+def bounded(tier, seed):
+    from g3dvc import bounded as B
+    per = 24 if tier == "quick" else 400
+    return [("flat-flat catalogue (25 ordered pairs, designed positions, oblique poses)", B.flat_flat, (seed, per), 1800)]
+
+
+def replay_case(case):
+    from g3dvc import bounded as B
+    return B.replay_intersection(case)
